@@ -95,6 +95,11 @@ CHECKS = {
    text="The caller's context is a harness type whose cancellation flips at the k-th observation (every Err/Done/Deadline call is a gate; k enumerated 0..10/24), for the select and insert scenarios, a responsive or a forever-silent server, and five scheduling policies; plus the same during Connect's hello exchange. When Do fails after the flip: errors.Is(err, context.Canceled), connection closed, client closed, the written bytes are a prefix of the reference stream ending at a flush boundary followed by at most one byte, which must be the Cancel code 3, and no goroutine of the call is left (engine-level leak check); a loop that never observes the cancellation is reported as does-not-return.",
    ref="DESIGN.md §4 C10",
    note="bounds: gates <=10 (quick)/24; wall-clock promptness and goroutines blocked in a real kernel read are outside; deadlines are not modelled as expiring on their own (a deadline is a gate like any other); non-preemptive schedules only"),
+ "C11": dict(
+   level="model_checking",
+   text="chpool (Acquire, Release, Do/Ping through a handle, checkIdleConnsHealth, Close) is executed together with the REAL github.com/jackc/puddle/v2 pool and x/sync/semaphore, interpreted from their SSA with goroutines as cooperative coroutines, over connections dialed from a scripted server. Histories: acquire/release/release-again/re-acquire/stale release by a previous holder/third acquire with MaxConns 1..2; a client closed while held; lifetime exceeded at release; idle time exceeded at the health check; healthy idle connections; pool Close. Assertions: a released handle is inert (repeated and stale releases change nothing, never panic), a connection has one holder (a third acquire never returns the connection another handle holds), open connections <= MaxConns, closed/expired connections are destroyed and not reissued, everything dialed is closed after Close.",
+   ref="DESIGN.md §4 C11",
+   note="bounds: sequential handle histories of <=6 operations over <=2 connections; all interleavings of concurrent holders on real threads and the ticker-driven background goroutine are NOT decided (tickers never fire in the model; the health check is called directly); clock is concrete (1 ms per time.Now)"),
 }
 
 NA = {
